@@ -107,6 +107,7 @@ async fn request(world: &mut World, msg: FromClientMessage) -> Option<ToClientMe
             sent_step: 0,
             stream: false,
             sel: None,
+            unfinished_at_send: Default::default(),
         });
     }
     None
